@@ -89,6 +89,13 @@ var selfMutants = []selfMutant{
 	{Rule: "R-BOUNDS", File: "common.go", Old: "	for i := 3; i < n; i++ { // mimetype", New: "	for i := 3; i <= n; i++ { // mimetype", Props: []string{"C16"}, Why: "Mediatype scans one byte too far"},
 	{Rule: "R-BOUNDS", File: "common.go", Old: "		if b[i] == '%' && i+2 < len(b) {", New: "		if b[i] == '%' && i+1 < len(b) {", Props: []string{"C16"}, Why: "DecodeURL reads the second hex digit past the end"},
 	{Rule: "R-BOUNDS", File: "strconv/float.go", Old: "	} else if -22 <= exp && exp < 0 { // int / 10^k\n		return f / float64pow10[-exp], i\n	}\n	if f == 0.0 {", New: "	} else if -23 <= exp && exp < 0 { // int / 10^k\n		return f / float64pow10[-exp], i\n	}\n	if f == 0.0 {", Props: []string{"C14"}, Why: "power-of-ten table indexed at 23"},
+	{Rule: "R-OVF", File: "strconv/int.go", Old: "\t\t\tif math.MaxUint64/10 < n || math.MaxUint64-uint64(c-'0') < n*10 {\n\t\t\t\treturn 0, 0", New: "\t\t\tif math.MaxUint64/10 < n {\n\t\t\t\treturn 0, 0", Props: []string{"C14"}, Why: "ParseUint: second half of the overflow guard dropped, n*10+d wraps for 1844674407370955161x"},
+	{Rule: "R-OVF", File: "strconv/int.go", Old: "if uint64(-math.MinInt64)/10 < n || uint64(-math.MinInt64)-uint64(c-'0') < n*10 {", New: "if uint64(-math.MinInt64)/10 <= n || uint64(-math.MinInt64)-uint64(c-'0') < n*10 {", Props: []string{"C14"}, Why: "ParseInt refuses the digit after 922337203685477580 although -9223372036854775808 is representable"},
+	{Rule: "R-OVF", File: "strconv/int.go", Old: "if uint64(-math.MinInt64)/10 < n || uint64(-math.MinInt64)-uint64(c-'0') < n*10 {", New: "if i-start == 19 {", Props: []string{"C14"}, Why: "ParseInt: digit-count early-out instead of the value guard (leading zeros are reported as overflow)"},
+	{Rule: "R-OVF", File: "strconv/float.go", Old: "\t\t\t\tif math.MaxUint64/10 < n || math.MaxUint64-uint64(c-'0') < n*10 {\n\t\t\t\t\ttrunk = i", New: "\t\t\t\tif math.MaxUint64/9 < n || math.MaxUint64-uint64(c-'0') < n*10 {\n\t\t\t\t\ttrunk = i", Props: []string{"C14"}, Why: "ParseFloat: weakened limit lets the mantissa product wrap"},
+	{Rule: "R-OVF", File: "strconv/int.go", Old: "\t\t\tif math.MaxUint64/10 < n || math.MaxUint64-uint64(c-'0') < n*10 {\n\t\t\t\treturn 0, 0\n\t\t\t}\n\t\t\tn *= 10\n\t\t\tn += uint64(c - '0')", New: "\t\t\td := uint64(c - '0')\n\t\t\tif n > math.MaxUint64/10 || n*10 > math.MaxUint64-d {\n\t\t\t\treturn 0, 0\n\t\t\t}\n\t\t\tn = n*10 + d", Props: []string{"C14"}, Silent: true, Why: "ParseUint guard with the digit hoisted, > instead of <, one multiply-add statement"},
+	{Rule: "R-OVF", File: "strconv/int.go", Old: "\t\t\tif math.MaxUint64/10 < n || math.MaxUint64-uint64(c-'0') < n*10 {\n\t\t\t\treturn 0, 0", New: "\t\t\tif math.MaxUint64-uint64(c-'0') < n*10 || math.MaxUint64/10 < n {\n\t\t\t\treturn 0, 0", Props: []string{"C14"}, Silent: true, Why: "ParseUint guard with the disjuncts swapped: the guard's own product may wrap, the other disjunct catches exactly that case"},
+	{Rule: "R-OVF", File: "strconv/int.go", Old: "if uint64(-math.MinInt64)/10 < n || uint64(-math.MinInt64)-uint64(c-'0') < n*10 {", New: "if n >= uint64(-math.MinInt64)/10+1 || uint64(-math.MinInt64)-uint64(c-'0') < n*10 {", Props: []string{"C14"}, Silent: true, Why: "ParseInt guard written with >= limit+1"},
 	{Rule: "R-BOUNDS", File: "strconv/int.go", Old: "	for i < len(b) {\n		c := b[i]\n		if '0' <= c && c <= '9' {\n			if uint64(-math.MinInt64)", New: "	for i <= len(b) {\n		c := b[i]\n		if '0' <= c && c <= '9' {\n			if uint64(-math.MinInt64)", Props: []string{"C14"}, Why: "ParseInt reads past the end"},
 	{Rule: "R-BOUNDS", File: "position.go", Old: "		if col <= limit-offset {", New: "		if col < offset {", Props: []string{"C15"}, Why: "context window may start before the line"},
 	{Rule: "R-BOUNDS", File: "js/ast.go", Old: "	} else if len(ast.List) == 0 {\n		return nil\n	}\n	exprStmt, ok := ast.List[0].(*ExprStmt)", New: "	}\n	exprStmt, ok := ast.List[0].(*ExprStmt)", Props: []string{"C01"}, Why: "AST.JSON indexes an empty statement list"},
